@@ -1230,6 +1230,10 @@ func init() {
 		if os.Getenv("VERIF_SHARD") == "" {
 			out.Line("%s", slowCloseScenario())
 			out.Line("%s", blockedWriteCloseScenario())
+			out.Line("%s", dialCloseScenario("close"))
+			for _, l := range resultChanCases() {
+				out.Line("%s", l)
+			}
 		}
 	}
 	c18conn := connProp("c18", "idle")
